@@ -25,6 +25,7 @@ type C03Scn struct {
 	AdvanceMs int64     `json:"advance_ms,omitempty"` // one clock jump the scheduler may take (rolling sinks)
 	Ack       bool      `json:"ack,omitempty"`        // C20: check durability at every acknowledgement
 	Fast      bool      `json:"fast_caller,omitempty"` // property fastCaller=true (the cached call-site lookup)
+	RawEvery  int       `json:"raw_every,omitempty"`   // C20: every k-th call of a client is followed by a two-line raw write through the named handle
 }
 
 func (s *C03Scn) knobs() SimKnobs { return s.Knobs }
@@ -159,6 +160,9 @@ func (c c03) Gen(rt *rapid.T, thorough bool) any {
 		sys.Logs = []LogSpec{lg}
 		s.Sys = sys
 	}
+	if c.ack && s.Mode == "refresh" {
+		s.RawEvery = rapid.SampledFrom([]int{0, 0, 1, 2}).Draw(rt, "raw_every")
+	}
 	return s
 }
 
@@ -190,6 +194,13 @@ func (c c03) Run(x *Exec, scn any) {
 	var stop func()
 	var direct log.Logger
 	fastLoc := map[int][2]any{}
+	var handle *log.LoggerWrapper
+	type rawAck struct {
+		id, payload string
+		ret         int
+		at          ackSnap
+	}
+	var rawAcks []rawAck
 	loggerRange := mRange{0, 999, false}
 	switch s.Mode {
 	case "builtin":
@@ -257,6 +268,7 @@ func (c c03) Run(x *Exec, scn any) {
 			resetHooks()
 			installHooks(true, true, true)
 		}
+		handle = log.GetLogger(s.Sys.Logs[0].Name)
 		cfg := s.Sys.Render()
 		var err error
 		var pv any
@@ -326,6 +338,16 @@ func (c c03) Run(x *Exec, scn any) {
 				if s.Ack && sb.Returned {
 					// no scheduling point between the return of the call and this snapshot
 					acks[sb.ID] = snapSinks(x)
+				}
+				if s.Ack && s.RawEvery > 0 && i%s.RawEvery == 0 && handle != nil {
+					// a write through the named handle is acknowledged like any other call; its
+					// payload holds two complete lines
+					ra := rawAck{id: fmt.Sprintf("raw-t%ds%d", t, i), payload: fmt.Sprintf("raw:t%ds%d:first line\n\tsecond line of the same write\n", t, i)}
+					if pv, _ := call(func() { handle.Write([]byte(ra.payload)) }); pv == nil {
+						ra.ret, _ = stepTask()
+						ra.at = snapSinks(x)
+						rawAcks = append(rawAcks, ra)
+					}
 				}
 			}
 		})
@@ -434,6 +456,37 @@ func (c c03) Run(x *Exec, scn any) {
 	}
 	if s.Ack {
 		c.judgeAcks(x, s, sinks, all, acks, loggerRange)
+		stdoutW := x.FS.StdoutWrites()
+		for _, ra := range rawAcks {
+			for _, sk := range sinks {
+				found := false
+				switch sk.kind {
+				case "console":
+					var sb strings.Builder
+					for _, w := range stdoutW[:ra.at.stdout] {
+						sb.Write(w.Data)
+					}
+					found = strings.Contains(sb.String(), ra.payload)
+				case "file":
+					data, _ := x.FS.ReadFile(sk.name)
+					n := ra.at.files[sk.name]
+					found = n <= len(data) && strings.Contains(string(data[:n]), ra.payload)
+				case "rolling":
+					for name, n := range ra.at.files {
+						if strings.HasPrefix(name, sk.name) && (sk.exclude == "" || !strings.HasPrefix(name, sk.exclude)) {
+							data, _ := x.FS.ReadFile(name)
+							if n <= len(data) && strings.Contains(string(data[:n]), ra.payload) {
+								found = true
+							}
+						}
+					}
+				}
+				if !found {
+					o.violate("acked-raw-write-not-in-os", "C20/acked-raw-write-not-in-os/"+sk.kind,
+						"the write %s through the named handle returned at step %d but its %d bytes were not completely in %s at that step: %q", ra.id, ra.ret, len(ra.payload), sk.name, ra.payload)
+				}
+			}
+		}
 	}
 	for _, e := range x.FS.List("/logs") {
 		if e.Shrinks > 0 {
